@@ -208,6 +208,52 @@ func main() {
 		}
 	}
 
+	// ---- part 1c: the source directory given as a short RELATIVE path whose text re-occurs inside the tree
+	// ("d" holding d/d/f.txt and ad.txt, "data" holding metadata.json, ...): the entry name is the path below the source
+	// directory, whatever the directory is called
+	for _, name := range []string{"d", "data", "src", "a"} {
+		for _, recursive := range []bool{true, false} {
+			caseNo++
+			base := filepath.Join(scratch, fmt.Sprintf("rel%d", caseNo))
+			src := filepath.Join(base, name)
+			tree := map[string]string{name + ".txt": "1", "x" + name: "2", "meta" + name + ".json": "4",
+				name + "/" + name + "/f.txt": "5", "sub/" + name + "/" + name: "6", "sub/" + name + "x/y": "7"}
+			expect := map[string]string{}
+			for rel, content := range tree {
+				pth := filepath.Join(src, filepath.FromSlash(rel))
+				must(os.MkdirAll(filepath.Dir(pth), 0o755))
+				must(os.WriteFile(pth, []byte(content), 0o644))
+				if recursive || !strings.Contains(rel, "/") {
+					expect[filepath.FromSlash(rel)] = fmt.Sprintf("%x/%d", sha256.Sum256([]byte(content)), len(content))
+				}
+			}
+			cwd, _ := os.Getwd()
+			must(os.Chdir(base))
+			zerr := files.ZipFolder(name, "a.zip", nil, recursive)
+			os.Chdir(cwd)
+			desc := fmt.Sprintf("relative source directory %q recursive=%v", name, recursive)
+			evals++
+			nontriv++
+			if zerr != nil {
+				fail("roundtrip zip-error relative", desc+": ZipFolder: "+zerr.Error(), nil)
+			} else if err := files.UnzipToFolder(filepath.Join(base, "a.zip"), filepath.Join(base, "out")); err != nil {
+				fail("roundtrip unzip-error relative", desc+": UnzipToFolder: "+err.Error(), nil)
+			} else {
+				got := files_(snapshot(filepath.Join(base, "out")))
+				if fmt.Sprint(keys(got)) != fmt.Sprint(keys(expect)) {
+					fail("roundtrip file-set relative-source", fmt.Sprintf("%s: extracted %v, expected %v", desc, keys(got), keys(expect)), nil)
+				} else {
+					for k, v := range expect {
+						if got[k] != v {
+							fail("roundtrip content relative-source", fmt.Sprintf("%s: content of %s differs", desc, k), nil)
+						}
+					}
+				}
+			}
+			os.RemoveAll(base)
+		}
+	}
+
 	// ---- part 1b: extracting over existing files (second extraction with shorter content, duplicate entries)
 	for variant := 0; variant < 3; variant++ {
 		caseNo++
